@@ -2,6 +2,8 @@ package sym
 
 import (
 	"fmt"
+	"os"
+	"strings"
 	"time"
 )
 
@@ -13,6 +15,8 @@ type Pool struct {
 	Bank  *Bank
 	Procs []*Proc
 
+	IncTimeout    time.Duration // incremental attempt of a verdict query before fresh processes are used
+	OneShots      int
 	FeasTimeout   time.Duration
 	DecideTimeout time.Duration
 	CrossTimeout  time.Duration
@@ -27,7 +31,7 @@ type Pool struct {
 }
 
 func NewPool(bank *Bank, names ...string) (*Pool, error) {
-	pl := &Pool{Bank: bank, FeasTimeout: 20 * time.Second, DecideTimeout: 60 * time.Second, CrossTimeout: 10 * time.Second, CrossCheck: true}
+	pl := &Pool{Bank: bank, IncTimeout: 5 * time.Second, FeasTimeout: 10 * time.Second, DecideTimeout: 60 * time.Second, CrossTimeout: 10 * time.Second, CrossCheck: true}
 	for _, n := range names {
 		p, err := StartProc(n, bank)
 		if err != nil {
@@ -68,6 +72,14 @@ func (pl *Pool) Feasible(asserts []*Term, wantModel bool) (Verdict, *Model) {
 			}
 			return v, m
 		}
+		if i == 0 {
+			// fresh process of the primary solver before trying the others incrementally
+			v, m := OneShot(p.Name, pl.Bank, asserts, 3*pl.FeasTimeout, wantModel, p.prelude, nil)
+			if v != Unknown {
+				pl.OneShots++
+				return v, m
+			}
+		}
 	}
 	return Unknown, nil
 }
@@ -79,6 +91,19 @@ func (pl *Pool) Feasible(asserts []*Term, wantModel bool) (Verdict, *Model) {
 // restarted lazily.
 func (pl *Pool) Decide(asserts []*Term, wantModel bool) (Verdict, *Model) {
 	pl.Decided++
+	if d := os.Getenv("VERIF_DUMP"); d != "" {
+		em := NewEmitter(pl.Bank)
+		var sb strings.Builder
+		for _, l := range em.Define(asserts...) {
+			sb.WriteString(l + "\n")
+		}
+		for _, a := range asserts {
+			sb.WriteString("(assert " + Ref(a) + ")\n")
+		}
+		sb.WriteString("(check-sat)\n")
+		os.MkdirAll(d, 0o755)
+		os.WriteFile(fmt.Sprintf("%s/q%d_%d.smt2", d, os.Getpid(), pl.Decided), []byte(sb.String()), 0o644)
+	}
 	type ans struct {
 		i int
 		v Verdict
@@ -101,7 +126,7 @@ func (pl *Pool) Decide(asserts []*Term, wantModel bool) (Verdict, *Model) {
 	ch := make(chan ans, n)
 	for i, p := range pl.Procs[:n] {
 		go func(i int, p *Proc) {
-			v, m := p.Check(asserts, pl.DecideTimeout, wantModel)
+			v, m := p.Check(asserts, pl.IncTimeout, wantModel)
 			ch <- ans{i, v, m}
 		}(i, p)
 	}
@@ -148,13 +173,44 @@ loop:
 		got++
 	}
 	if first == nil && len(pl.Disagreements) == 0 {
-		for i := n; i < len(pl.Procs); i++ {
-			v, m := pl.Procs[i].Check(asserts, pl.DecideTimeout, wantModel)
-			if v != Unknown {
-				first = &ans{i, v, m}
-				break
+		// fresh non-incremental processes, all solvers at once
+		pl.OneShots++
+		cancel := make(chan struct{})
+		och := make(chan ans, len(pl.Procs))
+		for i, p := range pl.Procs {
+			go func(i int, name string, prelude []string) {
+				v, m := OneShot(name, pl.Bank, asserts, pl.DecideTimeout, wantModel, prelude, cancel)
+				och <- ans{i, v, m}
+			}(i, p.Name, p.prelude)
+		}
+		ogot := 0
+		var ograce <-chan time.Time
+	oloop:
+		for ogot < len(pl.Procs) {
+			select {
+			case a := <-och:
+				ogot++
+				if a.v == Unknown {
+					continue
+				}
+				if first == nil {
+					aa := a
+					first = &aa
+					ograce = time.After(pl.CrossTimeout)
+					continue
+				}
+				if a.v != first.v {
+					pl.Disagreements = append(pl.Disagreements, fmt.Sprintf("%s=%v %s=%v", pl.Procs[first.i].Name, first.v, pl.Procs[a.i].Name, a.v))
+					first = nil
+					break oloop
+				}
+				confirmed = true
+				break oloop
+			case <-ograce:
+				break oloop
 			}
 		}
+		close(cancel)
 	}
 	if first == nil {
 		pl.Inconclusive++
